@@ -650,6 +650,62 @@ def accessors(repo, recipe):
     return '\n'.join(protos) + '\n' + '\n'.join(out) + '\n' + '\n'.join(defines) + '\n', info
 
 
+def members(repo, recipe):
+    """kind=members: the data-member declarations `names` of a class, copied from the header (so that a shim struct has
+    exactly the real members' types).  Emits the declaration statements that declare the requested names, in source order,
+    with comments stripped; `subs` may adapt C++-only syntax (references)."""
+    path = os.path.join(repo, recipe['file'])
+    text = open(path, encoding='utf-8', errors='replace').read()
+    lo, hi = _search_region(text, {'scope': recipe['scope'], 'file': recipe['file']})
+    body = strip_comments(text[lo + 1:hi - 1])
+    mask = code_mask(body)
+    # split into top-level statements, skipping nested blocks (inline methods, nested types)
+    stmts, depth, cur, i = [], 0, '', 0
+    while i < len(body):
+        ch = body[i]
+        if mask[i] and ch == '{':
+            depth += 1
+        elif mask[i] and ch == '}':
+            depth -= 1
+            if depth == 0:
+                cur = ''          # a method body or nested type ended: whatever preceded it is not a data member
+                i += 1
+                continue
+        if depth == 0:
+            if mask[i] and ch == ';':
+                stmts.append(cur.strip())
+                cur = ''
+            else:
+                cur += ch
+        i += 1
+    want = list(recipe['names'])
+    found = {}
+    out = []
+    for st in stmts:
+        st = re.sub(r'\b(public|private|protected)\s*:', ' ', st)
+        st = re.sub(r'\bCLASS_NEW_DELETE\b', ' ', st).strip()
+        if not st or '(' in st.split('=')[0] and not re.search(r'\[\s*\w*\s*\]', st):
+            if '(' in st:
+                continue
+        if st.startswith(('typedef', 'friend', 'using', 'static', 'enum', 'struct', 'class', 'template')):
+            continue
+        decl_names = re.findall(r'[\*&\s,]([A-Za-z_]\w*)\s*(?:\[[^\]]*\])?\s*(?:=[^,]*)?(?=,|$)', ' ' + st)
+        hit = [n for n in decl_names if n in want]
+        if hit:
+            st2 = ' '.join(st.split())
+            for sb in recipe.get('subs') or []:
+                st2 = re.sub(sb[0], sb[1], st2)
+            out.append('    ' + st2 + ';')
+            for n in decl_names:
+                found[n] = True
+    missing = [n for n in want if n not in found]
+    if missing:
+        raise ExtractError('members not found in %s %s: %s' % (recipe['file'], recipe['scope'], ', '.join(missing)))
+    info = {'file': recipe['file'], 'line': text.count('\n', 0, lo) + 1, 'kind': 'members', 'what': 'data members ' + ', '.join(want),
+            'sha256': hashlib.sha256('\n'.join(out).encode()).hexdigest(), 'rules': [{'rule': 'members', 'count': len(out)}], 'source_header': ''}
+    return '\n'.join(out) + '\n', info
+
+
 def op_effects(repo, recipe):
     """kind=opeffects: a C table, indexed by on-disk opcode number, of the syntactic stack effect of each opcode body.
     For every STARTOP(name)..ENDOP block of `file`: pops = #pop() + #binop( + #sbinop(, pushes = #push( (those inside the
@@ -696,6 +752,8 @@ def extract(repo, recipe):
         return op_effects(repo, recipe)
     if recipe.get('kind') == 'accessors':
         return accessors(repo, recipe)
+    if recipe.get('kind') == 'members':
+        return members(repo, recipe)
     path = os.path.join(repo, recipe['file'])
     try:
         text = open(path, encoding='utf-8', errors='replace').read()
